@@ -1,6 +1,6 @@
 ------------------------------ MODULE Conf_Magma ------------------------------
 EXTENDS Magma, Json, IOUtils
-VARIABLES l, inst
+VARIABLES tpos, inst
 Rec == ndJsonDeserialize(IOEnv.TRACE)
 OSched(t, k, x) == MagmaSched(t, k, x)
 OEnc(ks, b) == MagmaEnc(ks, b)
